@@ -199,3 +199,58 @@ def plus_to_cat(t):
             return ('cat', tuple(parts))
         return None
     return rewrite(t, f)
+
+
+MODELLED = {'attr', 'index', 'var', 'elem', 'cat', 'int2bytes', 'rev', 'hash', 'varint', 'varstr', 'repeat', 'cond', 'len', 'cmp', 'bool', 'not',
+            'slice', 'int', 'read', 'bytes2int', 'binop', 'in-loop', 'tuple', 'list'}
+
+
+def opaque_subterms(t):
+    """subterms outside the layout language (opaque calls etc.): a mismatch that involves them is UNDECIDED, not a violation"""
+    from .sym import subterms
+    out = []
+    for s in subterms(t):
+        if isinstance(s, tuple) and s and isinstance(s[0], str) and s[0] not in MODELLED:
+            out.append(s)
+    return out
+
+
+def strip_int(t):
+    """int(x) wrappers around attribute reads do not change the layout"""
+    def f(x):
+        if isinstance(x, tuple) and len(x) == 2 and x[0] == 'int':
+            return x[1]
+        return None
+    return rewrite(t, f)
+
+
+def rename_loopvars(t):
+    """alpha-normalise loop variable names of repeat / elem terms"""
+    def f(x):
+        if isinstance(x, tuple) and x and x[0] == 'elem' and len(x) == 3:
+            return ('elem', x[1], '_')
+        if isinstance(x, tuple) and x and x[0] == 'repeat' and len(x) == 4:
+            return ('repeat', x[1], '_', x[3])
+        return None
+    return rewrite(t, f)
+
+
+def canon_layout(t):
+    return rename_loopvars(strip_int(normalize(plus_to_cat(t))))
+
+
+def diff_layout(got, exp):
+    """align two layouts part by part; returns [(position, got_part|None, exp_part|None)] for the first mismatch region"""
+    from .sym import flatten_cat
+    g, e = flatten_cat(got), flatten_cat(exp)
+    out = []
+    i = 0
+    while i < len(g) and i < len(e) and g[i] == e[i]:
+        i += 1
+    j = 0
+    while j < len(g) - i and j < len(e) - i and g[len(g) - 1 - j] == e[len(e) - 1 - j]:
+        j += 1
+    gm, em = g[i:len(g) - j], e[i:len(e) - j]
+    if not gm and not em:
+        return []
+    return [(i, gm, em)]
